@@ -55,6 +55,21 @@ Theorem C05_partial_program_set_never_runs : forall cfg user send_ok bufsize sto
 Proof. exact partial_program_set_never_runs. Qed.
 Print Assumptions C05_partial_program_set_never_runs.
 
+(* the executable model that every check compares with the implementation: what run_model emits, for
+   every script of datagrams, receive errors and stop requests, is the effects of the interleaved trace
+   of some history from the initial state (followed by the final drops and the close of the transport,
+   or first by the effects of the step that ended the run), and install-before-use holds of that trace;
+   or the runtime refused to start.  So the history theorem above is a theorem about every run. *)
+From Portus Require Import RunTrace.
+Theorem C05_every_run_is_a_trace_with_install_before_use : forall cfg user send_ok bufsize stopped0 evs es res,
+  run_model cfg user send_ok bufsize stopped0 evs = (es, res) ->
+  (cfg_compile_ok cfg = false /\ es = [ECloseTransport] /\ res = RErr) \/
+  (cfg_compile_ok cfg = true /\
+   exists h st' t, trace cfg user send_ok init_state h = Some (st', t) /\ scan cfg [] t /\
+                   ends_as cfg user send_ok st' t es).
+Proof. exact run_model_is_trace. Qed.
+Print Assumptions C05_every_run_is_a_trace_with_install_before_use.
+
 (* translator obligations (lib/gen_statespace.py reads the structs, statics and mutable bindings of the
    modelled code on every run): the code has the state the model represents and no other *)
 From Portus Require Import StateTie.
